@@ -313,7 +313,7 @@ Section Levels.
         else if is_type_name i then
           match mtype_of i with
           | Some ty => let! _ := next in let! e := here in
-                       pret (MPatType (mkRange start e) (mkRange start e) ty)
+                       pret (MPatType (mkRange start e) (mkRange start e) ty i)
           | None => cmp_pattern       (* unreachable: every type name has a pattern *)
           end
         else cmp_pattern
